@@ -159,6 +159,12 @@ where
         "compute full witness",
         partition_witness.full_witness()
     );
+    #[cfg(feature = "verif_hooks")]
+    let witness = {
+        let mut witness = witness;
+        crate::verif_hooks::apply_witness_edits(&mut witness);
+        witness
+    };
 
     let wires_values: Vec<PolynomialValues<F>> = timed!(
         timing,
@@ -272,6 +278,16 @@ where
             &alphas,
         )
     );
+    #[cfg(feature = "verif_hooks")]
+    let quotient_polys = {
+        let mut quotient_polys = quotient_polys;
+        crate::verif_hooks::with_knobs(|k| {
+            for &(p, c, v) in &k.quotient_edits {
+                quotient_polys[p].coeffs[c] += F::from_canonical_u64(v);
+            }
+        });
+        quotient_polys
+    };
 
     let all_quotient_poly_chunks: Vec<PolynomialCoeffs<F>> = timed!(
         timing,
@@ -279,6 +295,10 @@ where
         quotient_polys
             .into_par_iter()
             .flat_map(|mut quotient_poly| {
+                #[cfg(feature = "verif_hooks")]
+                if crate::verif_hooks::with_knobs(|k| k.lenient_truncation) == Some(true) {
+                    quotient_poly.coeffs.resize(quotient_degree, F::ZERO);
+                }
                 quotient_poly.trim_to_len(quotient_degree).expect(
                     "Quotient has failed, the vanishing polynomial is not divisible by Z_H",
                 );
@@ -433,6 +453,10 @@ fn wires_permutation_partial_products_and_zs<
         .collect::<Vec<_>>();
 
     let mut z_x = F::ONE;
+    #[cfg(feature = "verif_hooks")]
+    if let Some(Some(z0)) = crate::verif_hooks::with_knobs(|k| k.z_init) {
+        z_x = F::from_canonical_u64(z0);
+    }
     let mut all_partial_products_and_zs = Vec::with_capacity(all_quotient_chunk_products.len());
     for quotient_chunk_products in all_quotient_chunk_products {
         let mut partial_products_and_z_gx =
